@@ -655,3 +655,83 @@ Proof.
 Qed.
 
 End Instances.
+
+(** ** The same theorems with the caller's reading of [vars] quantified after
+    the run: the algorithms terminate for *every* reference passed as variable
+    set / cube; whenever that reference denotes a variable set / cube, the
+    result is the spec function *)
+
+Section Total.
+Variable gt : ref -> ref -> bool.
+Variable C : Type.
+Variable cget : C -> N -> list ref -> option ref.
+Variable cadd : C -> N -> list ref -> ref -> C.
+Hypothesis Hlossy : lossy cget cadd.
+Variable Sg : N -> option (list (nat * ref)).
+
+Notation QOK := (QCacheOK cget Sg).
+
+Theorem quant_edge_total : forall q s c f vars,
+  BddOK s -> QOK s c -> ref_ok s f -> ref_ok s vars ->
+  exists s' c' r, quant_edge gt C cget cadd s c q f vars = Some (s', c', r) /\
+    BddOK s' /\ extends s s' /\ QOK s' c' /\ ref_ok s' r /\
+    forall vs, (forall v, In v vs -> v < nlevels s) -> is_varset s vars vs -> (q = QUnique -> NoDup vs) ->
+    forall a, bfun_of s' r a = quant (qfun q) vs (bfun_of s f) a.
+Proof.
+  intros q s c f vars B Q Of Ov. pose proof (bo_wf s B) as H.
+  destruct (den_exists s f B Of) as [phi D]. destruct (vchain_total s B vars Ov) as [L V].
+  pose proof (rlevel_le s H f).
+  destruct (quant_rec_ok gt C cget cadd Hlossy Sg q (S (nlevels s)) s c f vars phi L B Q D Ov V ltac:(lia))
+    as [s' [c' [r [E [B' [X [Q' D']]]]]]].
+  exists s', c', r. split; [exact E|]. split; [exact B'|]. split; [exact X|]. split; [exact Q'|].
+  split; [apply (proj1 D')|]. intros vs Hlt Hvs Hu a.
+  rewrite (bfun_of_den s' r _ D'). unfold choice_of. rewrite (ext_l2v _ _ X). fold (choice_of s a).
+  apply (qlevs_quant s q vars vs L phi (bfun_of s f) B Ov Hvs Hlt Hu V (den_cext s f phi H D)
+           (aext_bfun_of s H f) (bfun_of_den s f phi D)).
+Qed.
+
+Theorem apply_quant_edge_total : forall q op s c f g vars,
+  BddOK s -> QOK s c -> ref_ok s f -> ref_ok s g -> ref_ok s vars ->
+  exists s' c' r, apply_quant_edge gt C cget cadd s c q op f g vars = Some (s', c', r) /\
+    BddOK s' /\ extends s s' /\ QOK s' c' /\ ref_ok s' r /\
+    forall vs, (forall v, In v vs -> v < nlevels s) -> is_varset s vars vs -> (q = QUnique -> NoDup vs) ->
+    forall a, bfun_of s' r a = quant (qfun q) vs (lift2 op (bfun_of s f) (bfun_of s g)) a.
+Proof.
+  intros q op s c f g vars B Q Of Og Ov. pose proof (bo_wf s B) as H.
+  destruct (den_exists s f B Of) as [phi Df]. destruct (den_exists s g B Og) as [psi Dg].
+  destruct (vchain_total s B vars Ov) as [L V].
+  destruct (apply_quant_ok gt C cget cadd Hlossy Sg q op (S (nlevels s)) s c f g vars phi psi L
+              B Q Df Dg Ov V ltac:(lia))
+    as [s' [c' [r [E [B' [X [Q' D']]]]]]].
+  exists s', c', r. split; [exact E|]. split; [exact B'|]. split; [exact X|]. split; [exact Q'|].
+  split; [apply (proj1 D')|]. intros vs Hlt Hvs Hu a.
+  rewrite (bfun_of_den s' r _ D'). unfold choice_of. rewrite (ext_l2v _ _ X). fold (choice_of s a).
+  apply (qlevs_quant s q vars vs L _ (lift2 op (bfun_of s f) (bfun_of s g)) B Ov Hvs Hlt Hu V).
+  - apply (cext_indep _ 0). intros x y Hx Hy Exy.
+    rewrite (indep_cext phi (den_cext s f phi H Df) x y Hx Hy Exy),
+            (indep_cext psi (den_cext s g psi H Dg) x y Hx Hy Exy). reflexivity.
+  - apply aext_lift2; apply (aext_bfun_of s H).
+  - intros a0. unfold lift2. rewrite (bfun_of_den s f phi Df), (bfun_of_den s g psi Dg). reflexivity.
+Qed.
+
+Theorem restrict_edge_total : forall s c f vars,
+  BddOK s -> QOK s c -> ref_ok s f -> ref_ok s vars ->
+  exists s' c' r, restrict_edge C cget cadd s c f vars = Some (s', c', r) /\
+    BddOK s' /\ extends s s' /\ QOK s' c' /\ ref_ok s' r /\
+    forall lits, NoDup (map fst lits) -> (forall p, In p lits -> fst p < nlevels s) -> is_cube s vars lits ->
+    forall a, bfun_of s' r a = restrict_s lits (bfun_of s f) a.
+Proof.
+  intros s c f vars B Q Of Ov. pose proof (bo_wf s B) as H.
+  destruct (den_exists s f B Of) as [phi D]. destruct (lchain_total s B vars Ov) as [M V].
+  pose proof (rlevel_le s H f).
+  destruct (restrict_ok C cget cadd Hlossy Sg (S (nlevels s)) s c f vars phi M B Q D Ov V ltac:(lia))
+    as [s' [c' [r [E [B' [X [Q' D']]]]]]].
+  exists s', c', r. split; [exact E|]. split; [exact B'|]. split; [exact X|]. split; [exact Q'|].
+  split; [apply (proj1 D')|]. intros lits Hnd Hlt Hc a.
+  (* the run is deterministic: reuse the theorem for this reading of [vars] *)
+  destruct (restrict_edge_sound C cget cadd Hlossy Sg s c f vars lits B Q Of Ov Hnd Hlt Hc)
+    as [s2 [c2 [r2 [E2 [_ [_ [_ [_ S2]]]]]]]].
+  unfold restrict_edge in E2. rewrite E in E2. inversion E2; subst. apply S2.
+Qed.
+
+End Total.
